@@ -51,7 +51,8 @@ def run(cfg):
     R.rule('R7', 'no class on the compile path fills a class-level mutable container through self', floor=8)
     shared_state_rule(R, [py.load(cfg, f) for f in COMPILE_PATH])
     template_rule(R, mods)
-    counter_rule(R, mods)
+    rendered_counts(cfg, R)
+    rendered_order(cfg, R)
     inline_rule(cfg, R)
     pydb_rule(cfg, R)
     return R
@@ -308,123 +309,128 @@ def template_rule(R, mods):
                         R.violation('R2', c, m.loc(n), 'template %s has placeholder(s) %s that format() does not receive: KeyError at generation time' % (tname, sorted(need - have)))
 
 
-def counter_rule(R, mods):
-    for m in mods:
-        modn = m.rel.split('/')[-1][:-3]
-        for q, f in m.funcs.items():
-            loops = [n for n in ast.walk(f.node) if isinstance(n, ast.For)]
-            for n in ast.walk(f.node):
-                if not (isinstance(n, ast.Call) and isinstance(n.func, ast.Attribute) and n.func.attr == 'format'):
-                    continue
-                kws = {k.arg: k.value for k in n.keywords if k.arg}
-                for name, v in kws.items():
-                    if not name.startswith('num'):
+KIND_WORDS = (('rules', ('rule',)), ('eras', ('era',)), ('policies', ('polic',)), ('links', ('link',)), ('zones', ('zone', 'info')))
+CAT_WORDS = (('removed', ('unsupported', 'removed')), ('notable', ('notable',)), ('supported', ('supported',)))
+SKIP_WORDS = ('memory', 'string', 'byte', 'size', 'letter')
+
+
+def _files(cfg, R, kind, db):
+    from .genrender import generate_files, GENERATORS
+    from .pyeval import Raised
+    rel, cls = GENERATORS[kind]
+    m = py.load(cfg, rel)
+    f = m.fn(cls + '.generate_files')
+    try:
+        return f, generate_files(cfg, kind, db)
+    except Raised as r_:
+        return f, r_
+
+
+def rendered_counts(cfg, R):
+    """R4 on the files the generators write for the tagged database (E-SEQ, acv/genrender.py): the sizes of all its
+    collections differ, so a number tells which collection was counted.  Every "<words>: N" comment heading, every
+    `N /*numX*/` cell and kZoneRegistrySize must carry the size of the collection its words name (zones / links /
+    policies / rules / eras; removed or notable where the heading says so); a count rendered inside the item of one
+    zone or policy must be that zone's or policy's own count."""
+    from .genrender import tagged_db, sizes
+    db = tagged_db('extended')
+    sz = sizes(db)
+    per = {'eras': {n: len(v) for n, v in db['zones_map'].items()}, 'rules': {n: len(v) for n, v in db['rules_map'].items()},
+           'letters': {n: len({r['letter'] for r in v if len(r['letter']) > 1}) for n, v in db['rules_map'].items()}}
+    owners = {'eras': list(db['zones_map']), 'rules': list(db['rules_map']), 'letters': list(db['rules_map'])}
+
+    def kind_of(words):
+        w = words.lower()
+        if any(s in w for s in SKIP_WORDS):
+            return None
+        for k, ws in KIND_WORDS:
+            if any(x in w for x in ws):
+                return k
+        return None
+
+    def cat_of(words):
+        w = words.lower()
+        for c_, ws in CAT_WORDS:
+            if any(x in w for x in ws):
+                return c_
+        return None
+    for gen in ('arduino', 'python', 'zonelist'):
+        f, files = _files(cfg, R, gen, db)
+        if not isinstance(files, dict):
+            R.instance('R4', '%s:generate_files' % gen, f.loc)
+            R.violation('R4', '%s:generate_files' % gen, f.loc, 'writing the files of the tagged database raises %s' % files.what)
+            continue
+        for fname, text in sorted(files.items()):
+            lines = text.split('\n')
+            cxx = fname.endswith(('.h', '.cpp'))
+            owner = {'zones': None, 'policies': None}
+            prose = None
+            for i, ln in enumerate(lines):
+                for n in db['zones_map']:
+                    if n in ln or normalize_name(n) in ln:
+                        owner['zones'] = n         # the item being rendered: the zone / policy named last
+                for n in db['rules_map']:
+                    if n in ln:
+                        owner['policies'] = n
+                found = []
+                m = re.match(r'^\s*(?://|#)\s*([A-Za-z][A-Za-z ()-]*?):\s*(\d+)\s*$', ln)
+                if m:
+                    found.append((m.group(1), int(m.group(2)), True))
+                for m in re.finditer(r'(\d+)\s*/\*\s*(num\w+)\s*\*/', ln):
+                    found.append((m.group(2), int(m.group(1)), False))
+                m = re.search(r'kZoneRegistrySize\s*=\s*(\d+)', ln)
+                if m:
+                    found.append(('zone registry size', int(m.group(1)), False))
+                m = re.search(r'kZoneRegistry\[(\d+)\]', ln)
+                if m:
+                    found.append(('zone registry rows', int(m.group(1)), False))
+                for words, v, heading in found:
+                    k = kind_of(words)
+                    if 'letter' in words.lower() and not heading:
+                        k = 'letters'
+                    if k is None:
                         continue
-                    c = '%s.%s:%s' % (modn, q, name)
-                    R.instance('R4', c, m.loc(n), ast.unparse(v))
-                    if isinstance(v, ast.Call) and isinstance(v.func, ast.Name) and v.func.id == 'len' and len(v.args) == 1:
-                        coll = ast.unparse(v.args[0])
-                        # a sibling keyword must be rendered from the same collection
-                        ok = False
-                        for other, ov in kws.items():
-                            if other == name:
-                                continue
-                            if _rendered_from(m, f, ov, coll, loops):
-                                ok = True
-                        if not ok and f.cls:
-                            # size-only header: the items are rendered from the same collection by a sibling method
-                            for q2, g in m.funcs.items():
-                                if g.cls == f.cls and g is not f and any(coll in ast.unparse(lp.iter) for lp in ast.walk(g.node) if isinstance(lp, ast.For)):
-                                    ok = True
-                        if not ok:
-                            R.violation('R4', c, m.loc(n), '%s=len(%s) but no sibling placeholder of this template is rendered from %s' % (name, coll, coll))
-                    elif isinstance(v, ast.Name):
-                        # a local holding len(E) (possibly `len(E) if E else 0`), a counter accumulated in a loop of this
-                        # function, or one returned (as part of a tuple) by a helper
-                        ok = False
-                        lens = _len_of_local(f, v.id)
-                        if lens is not None:
-                            for other, ov in kws.items():
-                                if other != name and _rendered_from(m, f, ov, lens, loops):
-                                    ok = True
-                            if not ok:
-                                R.violation('R4', c, m.loc(n), '%s=%s=len(%s) but no sibling placeholder of this template is rendered from %s' % (name, v.id, lens, lens))
-                                continue
-                        ok = ok or _counter_ok(m, f, v.id, loops)
-                        if not ok:
-                            R.violation('R4', c, m.loc(n), '%s=%s is not a count accumulated while rendering the items' % (name, v.id))
-                    else:
-                        R.violation('R4', c, m.loc(n), '%s is %s, not len() of a collection or a running count' % (name, ast.unparse(v)))
+                    c = '%s:%s:%s' % (gen, fname, re.sub(r'\s+', '', words))
+                    R.instance('R4', c, f.loc, 'line %d: %s' % (i + 1, ln.strip()[:60]))
+                    cat = cat_of(words) or 'supported'
+                    if k in ('eras', 'rules', 'letters'):
+                        own = owner['zones' if k == 'eras' else 'policies']
+                        in_item = own is not None
+                        want = per[k][own] if in_item else sz.get(('supported', k))
+                        where = ('of %s' % own) if in_item else 'in total'
+                        if v != want:
+                            R.violation('R4', c, f.loc, '%s line %d "%s": the tagged database has %s %s %s' % (fname, i + 1, ln.strip()[:70], want, k, where))
+                        continue
+                    want = sz.get((cat, k))
+                    if not cxx and cat_of(words) is None and v in [n_ for (c_, k_), n_ in sz.items() if k_ == k]:
+                        continue        # "# numInfos: N" under a prose paragraph: the category is not in the heading itself
+                    if v != want:
+                        which = [('%s %s' % ck) for ck, n_ in sz.items() if n_ == v]
+                        R.violation('R4', c, f.loc, '%s line %d "%s": the %s %s of the tagged database number %s%s' % (
+                            fname, i + 1, ln.strip()[:70], cat, k, want, (', %d is the number of %s' % (v, ' / '.join(which))) if which else ''))
 
 
-def _len_of_local(f, var):
-    for x in ast.walk(f.node):
-        if isinstance(x, ast.Assign) and isinstance(x.targets[0], ast.Name) and x.targets[0].id == var:
-            v = x.value
-            if isinstance(v, ast.IfExp):
-                v = v.body
-            if isinstance(v, ast.Call) and isinstance(v.func, ast.Name) and v.func.id == 'len' and len(v.args) == 1:
-                return ast.unparse(v.args[0])
-    return None
-
-
-def _rendered_from(m, f, value, coll, loops, depth=0):
-    """value (an expression passed to format) is produced from `coll`: a variable accumulated in a loop over coll, a helper call on coll,
-    a join over coll, or coll itself."""
-    src = ast.unparse(value)
-    if coll in src:
-        return True
-    names_of_coll = {coll}
-    for x in ast.walk(f.node):
-        if isinstance(x, ast.Assign) and isinstance(x.targets[0], ast.Name):
-            v = x.value
-            if isinstance(v, ast.Call) and isinstance(v.func, ast.Name) and v.func.id == 'cast' and len(v.args) == 2:
-                v = v.args[1]
-            if ast.unparse(v) == coll:
-                names_of_coll.add(x.targets[0].id)
-    if isinstance(value, ast.Name):
-        for lp in loops:
-            if any(nm in ast.unparse(lp.iter) for nm in names_of_coll):
-                for x in ast.walk(lp):
-                    if isinstance(x, ast.AugAssign) and isinstance(x.target, ast.Name) and x.target.id == value.id:
-                        return True
-        # assigned from a helper that receives coll: items = self._generate_x(coll) / (n, items) = self._helper(coll)
-        for x in ast.walk(f.node):
-            if isinstance(x, ast.Assign) and coll in ast.unparse(x.value):
-                names = [y.id for y in ast.walk(x.targets[0]) if isinstance(y, ast.Name)]
-                if value.id in names:
-                    return True
-        # two-stage rendering: value = TEMPLATE.format(..., items=<local rendered from coll>)
-        if depth < 2:
-            for x in ast.walk(f.node):
-                if isinstance(x, ast.Assign) and isinstance(x.targets[0], ast.Name) and x.targets[0].id == value.id:
-                    for y in ast.walk(x.value):
-                        if isinstance(y, ast.Name) and y.id != value.id and _rendered_from(m, f, y, coll, loops, depth + 1):
-                            return True
-    return False
-
-
-def _counter_ok(m, f, var, loops):
-    for lp in loops:
-        inc = [x for x in ast.walk(lp) if isinstance(x, ast.AugAssign) and isinstance(x.target, ast.Name) and x.target.id == var]
-        acc = [x for x in ast.walk(lp) if isinstance(x, ast.AugAssign) and isinstance(x.target, ast.Name) and x.target.id != var]
-        if inc and acc:
-            return True
-    for x in ast.walk(f.node):
-        if isinstance(x, ast.Assign) and isinstance(x.targets[0], ast.Tuple) and isinstance(x.value, ast.Call):
-            names = [y.id for y in x.targets[0].elts if isinstance(y, ast.Name)]
-            if var in names and len(names) >= 2:
-                callee = ast.unparse(x.value.func).replace('self.', '')
-                g = m.funcs.get('%s.%s' % (f.cls, callee))
-                if g is not None:
-                    gl = [n for n in ast.walk(g.node) if isinstance(n, ast.For)]
-                    rets = [n for n in ast.walk(g.node) if isinstance(n, ast.Return) and isinstance(n.value, ast.Tuple)]
-                    if rets:
-                        pos = names.index(var)
-                        rv = rets[0].value.elts[pos]
-                        if isinstance(rv, ast.Name) and _counter_ok(m, g, rv.id, gl):
-                            return True
-    return False
+def rendered_order(cfg, R):
+    """R1 on the rendered files: the tagged database filled in the reverse order must give the same files, byte for byte."""
+    from .genrender import tagged_db, permuted
+    for gen in ('arduino', 'python', 'zonelist'):
+        for scope in ('basic', 'extended'):
+            db = tagged_db(scope)
+            f, a = _files(cfg, R, gen, db)
+            _f, b = _files(cfg, R, gen, permuted(db))
+            c = '%s:generate_files:insertion-order[%s]' % (gen, scope)
+            R.instance('R1', c, f.loc)
+            if not isinstance(a, dict) or not isinstance(b, dict):
+                x = a if not isinstance(a, dict) else b
+                R.violation('R1', c, f.loc, 'writing the files of the tagged database raises %s' % x.what)
+                continue
+            for fname in sorted(a):
+                if a[fname] != b.get(fname):
+                    la, lb = a[fname].split('\n'), (b.get(fname) or '').split('\n')
+                    k = next((i for i, (x, y) in enumerate(zip(la, lb)) if x != y), min(len(la), len(lb)))
+                    R.violation('R1', c, f.loc, '%s differs when the maps of the database are filled in the reverse order: line %d is %r in one and %r in the other: '
+                                'the output order follows the insertion order of the input' % (fname, k + 1, la[k][:70] if k < len(la) else '', lb[k][:70] if k < len(lb) else ''))
+                    break
 
 
 def inline_rule(cfg, R):
@@ -590,7 +596,7 @@ SELFTEST = [
     dict(id='placeholder-without-argument', file='tools/zonedb/pygenerator.py', find='            numEras=num_eras,\n', replace='', rule='R2'),
     dict(id='inline-uses-untruncated-field', file='tools/zonedb/ingenerator.py', find="                    'atSeconds': rule['atSecondsTruncated'],", replace="                    'atSeconds': rule['atSeconds'],", rule='R3'),
     dict(id='file-generator-crosses-fields', file='tools/zonedb/pygenerator.py', find="            untilMonth=era['untilMonth'],", replace="            untilMonth=era['untilDay'],", rule='R3'),
-    dict(id='counter-of-other-collection', file='tools/zonedb/argenerator.py', find='            numLinks=len(self.links_map),', replace='            numLinks=len(self.zones_map),', expect='silent'),
+    dict(id='counter-of-other-collection', file='tools/zonedb/argenerator.py', find='            numLinks=len(self.links_map),', replace='            numLinks=len(self.zones_map),', rule='R4'),
     dict(id='counter-of-unrendered-collection', file='tools/zonedb/argenerator.py', find='            numRemovedLinks=len(self.removed_links),', replace='            numRemovedLinks=len(self.removed_policies),', rule='R4'),
     dict(id='pydb-header-count', file='tools/zonedbpy/zone_infos.py', find='# numEras: 668', replace='# numEras: 667', rule='R6'),
     dict(id='pydb-cell-changed', file='tools/zonedbpy/zone_policies.py', regex=True, unique=False, nth=0, find=r"'atSeconds': 7200,", replace="'atSeconds': 3600,", rule='R6'),
